@@ -29,6 +29,8 @@ RULE = (
     "Distinct by (level, sweep kind, parameter)."
     " (e) one client object first works as another user of the same engine (each other v3 lev"
     "el) and is switched to the user under test by configure()."
+    " (f) agents announcing msgMaxSize 484/500/1472 answer with responses of 300..1500 payloa"
+    "d octets."
 )
 ASSUMPTIONS = [
     "the reference agent (vf/agent.py, vf/ber.py) is the independent RFC 3414 implementation; its key localisation and HMAC are self-checked on RFC 3414 A.3 / RFC 2202 vectors at start",
